@@ -37,11 +37,13 @@ class Built:
         return [self.row(r) for r in self.query.evaluate()]
 
 
-def build(q, world, quantifier="an", quantification=None, domain_wrap=None, shared_vars=None):
+def build(q, world, quantifier="an", quantification=None, domain_wrap=None, shared_vars=None, share_terms=False):
     """
     q: query AST.  world: var name -> domain list.
     domain_wrap: optional callable(name, list) -> iterable handed to let() (e.g. a logging generator).
     shared_vars: optional dict name -> already built krrood variable (C03 shares nodes on purpose).
+    share_terms: attribute / index / call terms that occur several times in the query are built ONCE and the same krrood
+                 expression object is used at every occurrence (what `f = x.flag` followed by two uses of f does).
     """
     from krrood.entity_query_language.entity import (entity, set_of, let, and_, or_, not_, in_, contains, flatten,
                                                        exists, for_all)
@@ -60,7 +62,16 @@ def build(q, world, quantifier="an", quantification=None, domain_wrap=None, shar
             env[name] = let(W.Item, dom(name), name=name)
         return env[name]
 
+    term_objects = {}
+
     def T(t):
+        if share_terms and t[0] in ("attr", "idx", "call"):
+            if t not in term_objects:
+                term_objects[t] = T_(t)
+            return term_objects[t]
+        return T_(t)
+
+    def T_(t):
         k = t[0]
         if k == "var":
             return env[t[1]] if t[1] in env else mk_var(t[1])
